@@ -486,6 +486,34 @@ def DD():
     return "; ".join(out) or None
 
 
+def GG():
+    """renaming a cells in a base silently replaces a sub space's own cells of the new name"""
+    m = _reset()
+    A_ = m.new_space("A")
+    A_.new_cells("foo", formula="lambda: 1")
+    B_ = m.new_space("B", bases=A_)
+    B_.new_cells("bar", formula="lambda: 2")
+    try:
+        A_.foo.rename("bar")
+    except ValueError:
+        return None
+    return None if B_.bar() == 2 else "B.bar() == %r after A.foo.rename('bar'): B lost its own cells" % B_.bar()
+
+
+def HH():
+    """changing the formula of a child space of a parametrised space keeps the stale dynamic tree"""
+    m = _reset()
+    A_ = m.new_space("A", formula="lambda p: None")
+    Ch = A_.new_space("Ch", formula="lambda n: None")
+    Ch.new_cells("d", formula="lambda x: p * 100 + n * 10 + x")
+    A_[1].Ch[2].d(3)
+    Ch.formula = "lambda n, k=5: {'refs': {'z': 1}}"
+    try:
+        return None if A_[1].Ch[2].z == 1 else "A[1].Ch[2].z == %r" % A_[1].Ch[2].z
+    except Exception as e:     # noqa
+        return "A[1].Ch[2].z raises %s after Ch.formula was replaced" % type(e).__name__
+
+
 # ------------------------------------------------------------------ C15
 def M():
     """export: comprehension following a nested class scope"""
@@ -603,7 +631,7 @@ def R():
     return None
 
 
-ALL = [A, F, G, U, I, J, K, L, EE, FF, T, Z, B, D, E, a, b, c, H, W, X, V, Y, AA, BB, CC, DD, M, N, O, P, Q, R]
+ALL = [A, F, G, U, I, J, K, L, EE, FF, T, Z, B, D, E, a, b, c, H, W, X, V, Y, AA, BB, CC, DD, GG, HH, M, N, O, P, Q, R]
 
 
 if __name__ == "__main__":
